@@ -45,6 +45,8 @@ def gen_plan(rng, index, tier):
     nb = (1 if plate else 0) + nfuel + (1 if plenum else 0) + 1
     heights = [rng.choice([10.0, 15.5, 25.0, 30.0]) for _ in range(nb - 1)] + [rng.choice([40.0, 60.0])]
     bp = {"rings": rng.choice([1, 1, 2]), "symmetry": "full", "nfuel": nfuel, "plate": plate, "plenum": plenum, "dummy": True, "heights": heights, "sfp": False, "geom": "hex"}
+    if rng.random() < 0.3:
+        bp["fuel_target"] = "clad"  # the blueprint designates the clad, not the fuel, as the fuel blocks' target
     cfg = {"reactor": "gen", "blueprint": bp, "settings": {"nCycles": 1, "burnSteps": 1, "detailedAxialExpansion": True}, "actors": []}
     steps = []
     for _ in range(rng.randint(3, 25)):
@@ -113,6 +115,8 @@ class Runner:
         self.log = log
         self.asms = list(o.r.core)
         self.ledgers = {id(a): Ledger(a) for a in self.asms}
+        # targets designated by the input (blueprint key) must stay the targets
+        self.designated = {id(b): b.p.axialExpTargetComponent for a in self.asms for b in a if b.p.axialExpTargetComponent}
         self.changer = AxialExpansionChanger(detailedAxialExpansion=True)
         self.findings = driver.load_findings()
         self.known = {}
@@ -163,6 +167,9 @@ class Runner:
             if not tname:
                 self.fail("C12.target", f"step {k}: block {bi} has no designated target component", what="none", op=st["op"])
                 continue
+            want = self.designated.get(id(b))
+            if want and tname != want:
+                self.fail("C12.target", f"step {k} ({st['op']}): block {bi} was designated to follow {want} but now follows {tname}", what="redesignated", op=st["op"])
             t = b.getComponentByName(tname)
             if ed is not None and not ed.isTargetComponent(t):
                 self.fail("C12.target", f"step {k}: block {bi}: {tname} is named as target but not treated as one", what="flag", op=st["op"])
